@@ -1,5 +1,6 @@
 """C02 -- every pre-terminal of the grammar is emitted exactly once."""
 from pyvc.runner import Prop, Bounded, script_replay
+from pyvc import effects
 import contracts.guesser_core as gc
 import contracts.guesser_lemmas as gl
 
@@ -11,6 +12,7 @@ PROP = Prop(
     functions=[M + '_find_prob', M + '_are_you_my_child', M + 'find_children', M + 'initalize_base_structures',
                Q + 'PcfgQueue.insert_queue', Q + 'PcfgQueue.next'],
     lemmas=gl.all_c02_lemmas,
+    effects=effects.state_frame_for('C02', ['lib_guesser/pcfg_grammar.py', 'lib_guesser/priority_queue.py', 'lib_guesser/grammar_io.py']),
     level='proof',
     replay=script_replay('replay/guesser.py'),
     bounded=[Bounded('C02.bounded.run', 'replay/guesser.py', args=['--fn', 'RUN'],
